@@ -930,6 +930,19 @@ func (nr *netRun) checkC08(x *xfer) {
 							}
 						}
 					}
+					if cause == "" {
+						// F15: a restart validated while paused at the limit: the new request is opened first and paused
+						// afterwards (receiveRequest: OpenChannel, then PauseChannel); a block that arrives in between is accounted
+						for _, tc := range b.TpCalls {
+							if tc.Kind == "open" && tc.Restart && tc.ChID == x.chid && tc.Life == life && tc.Step > pausedLB && tc.Step < e.Step {
+								for _, tp := range b.TpCalls {
+									if tp.Kind == "pause" && tp.ChID == x.chid && tp.Life == life && tp.Step >= tc.Done {
+										cause = "|restarted-request-opened-before-it-was-paused"
+									}
+								}
+							}
+						}
+					}
 					r.Failf("C08", "progress-while-paused-at-limit", datatransfer.Events[e.Code]+cause, "responder channel #%d paused at its data limit with %d limited bytes (step %d) shows %d after %s at step %d although nothing resumed it", x.idx, at, pausedAt, lim(e.Snap), datatransfer.Events[e.Code], e.Step)
 					pausedAt = -1
 				}
